@@ -22,6 +22,10 @@ pub fn first_diff(a: &[u8], b: &[u8]) -> String {
 pub fn run(ctx: &mut Ctx) {
     let fams = dfam::build(ctx.quick());
     let env = Env::new();
+    // copies run with an allocator that pre-fills every block: what a duplicate forgot to carry over is then a known,
+    // wrong value in every repetition (not whatever malloc happened to return)
+    let mut env_fill = Env::new();
+    env_fill.guarded_alloc = Some(0xC3);
     let sel = dfam::Sel { tiny: true, shapes: true, big: true, sweep: true, shape_cfg_stride: if ctx.quick() { 3 } else { 1 } };
     dfam::for_each(ctx, &fams, sel, |ctx, it| {
         ctx.case(
@@ -62,8 +66,8 @@ pub fn run(ctx: &mut Ctx) {
                     for k in [1usize, 2] {
                         c.exec();
                         let exk = DExtra { copy_after_call: k, ..Default::default() };
-                        let ak = run_deflate::<Rs>(&it.cfg, &it.inp.data, it.sched, &env, &exk, None)?;
-                        if let Ok(bk) = run_deflate::<Ng>(&it.cfg, &it.inp.data, it.sched, &env, &exk, None) {
+                        let ak = run_deflate::<Rs>(&it.cfg, &it.inp.data, it.sched, &env_fill, &exk, None)?;
+                        if let Ok(bk) = run_deflate::<Ng>(&it.cfg, &it.inp.data, it.sched, &env_fill, &exk, None) {
                             if ak.out != bk.out {
                                 return Err(format!("continued on a deflateCopy taken after call {k}, compressed bytes differ from zlib-ng: {}", first_diff(&ak.out, &bk.out)));
                             }
